@@ -614,6 +614,9 @@ class C16Engine(Engine):
                 im = self._img(r, allow_chan=False, float_only=True)
                 if r.random() < 0.2:
                     im["shape"][r.randint(0, 1)] = 1  # a single-voxel axis (a column or row image)
+                elif r.random() < 0.12:
+                    im["shape"] = [r.randint(3, 9)]  # a one-dimensional signal
+                    im.pop("form", None)
                 if r.random() < 0.4:
                     im["slab"] = r.randint(0, 999)
                     im.pop("form", None)
